@@ -452,6 +452,7 @@ EXPLAIN["_order"] = explain_order
 
 # ------------------------------------------------------------------ two look-ups on one Project: no state carried over
 FILE_B = ROOT / "a" / "b" / "g.py"
+FILE_C = ROOT / "c" / "h.py"  # only the root REUSE.toml is above this one
 
 
 def _twice_story(oa, ob, l0, l1):
@@ -473,17 +474,20 @@ def _twice_story(oa, ob, l0, l1):
     try:
         first = norm(project.reuse_info_of(FILE))
         second = norm(project.reuse_info_of(FILE_B))
+        third = norm(project.reuse_info_of(FILE_C))
         again = norm(project.reuse_info_of(FILE))
     finally:
         pj.reuse_info_of_file, pj.is_binary, pj._determine_license_path = saved
     exp_b, _ = model(own_b, "absent", lv)
     exp_b = sorted((a, b2, c, l, "a/b/g.py") if p == "a/b/f.py" else (a, b2, c, l, p) for a, b2, c, l, p in [(x[0].replace("f.py", "g.py") if x[0] else x[0], x[1], x[2], x[3], x[4]) for x in exp_b])
-    ok = second == exp_b and again == first
+    exp_c, _ = model(own_b, "absent", [lv[0], None, None])
+    exp_c = sorted(((x[0].replace("a/b/f.py", "c/h.py") if x[0] else x[0]), x[1], x[2], x[3], "c/h.py") for x in exp_c)
+    ok = second == exp_b and again == first and third == exp_c
     if not ok and known_key(own_b, "absent", lv) in CARVE and again == first:
         ok = True
     if not ok and known_key(own_a, "absent", lv) in CARVE and second == exp_b:
         ok = True
-    return ok, {"own_first": own_a, "own_second": own_b, "levels": lv, "first": first, "second": second, "second_expected": exp_b, "first_again": again}
+    return ok, {"own_first": own_a, "own_second": own_b, "levels": lv, "first": first, "second": second, "second_expected": exp_b, "third(c/h.py)": third, "third_expected": exp_c, "first_again": again}
 
 
 def _twice(oa: int, ob: int, l0: int, l1: int) -> bool:
